@@ -4,6 +4,7 @@ TRUST = ("Trusted: rustc (MIR construction, trait resolution, const evaluation) 
 SOURCE_COMMITS = []
 FIX_COMMITS = ["ae2da57", "a6bd5b1", "5888761", "4f0e07a", "98a9f66", "88a696c", "e497ea8", "279ff04"]
 NOT_APPLICABLE = {}
+CATEGORY = {"C17": "translation_validation"}
 CLAIMS = {
     "C05": {
         "technique": "exhaustive table extraction by constant propagation over MIR; relational table checks vs declaration and oracle",
